@@ -14,41 +14,65 @@ FAULT_OPS = ["new", "from_cs", "from_gs", "from_cgs", "copy_from", "assign", "sw
              "strictly_contains", "is_disjoint_from", "equals", "is_bounded", "is_universe", "relation_with_constraint",
              "relation_with_generator", "maximize", "minimize_pt", "bounds_from_above", "affine_dimension", "contains_integer_point",
              "is_topologically_closed", "constrains", "OK"]
-MODES = {0: "alloc", 1: "abandon", 2: "overflow"}
+MODES = {0: "alloc", 1: "abandon", 2: "overflow", 3: "coldalloc"}
+
+
+def _pip_flat(p):
+    return "BEGIN\nPIP %d %d\nEND\n" % (p["seed"], p["wide"])
 
 
 def run_faults(run):
+    from . import c06
     q = run.quick()
     lib = core.build_lib()
-    exe = core.build_harness("fault", ["fault.cc"], lib, flags="-I%s" % core.HARN)
+    exe = core.build_harness("fault", ["fault.cc"], lib, flags="-I%s" % core.HARN, extra_deps=["poly.cc"])
     lib8 = core.build_lib("int8")
-    exe8 = core.build_harness("fault8", ["fault.cc"], lib8, flags="-I%s" % core.HARN)
-    plans = [(0, exe, dict(maxlen=7, maxdim=2, ill=5, coef=2, num=(250 if q else 3000)), 60 if q else 600),
-             (0, exe, dict(maxlen=6, maxdim=3, ill=5, coef=3, num=(120 if q else 1500)), 25 if q else 300),
-             (1, exe, dict(maxlen=8, maxdim=3, ill=0, coef=3, num=(400 if q else 4000)), 150 if q else 1500),
-             (2, exe8, dict(maxlen=8, maxdim=3, ill=0, coef=3, num=(1500 if q else 15000)), 800 if q else 8000)]
+    exe8 = core.build_harness("fault8", ["fault.cc"], lib8, flags="-I%s" % core.HARN, extra_deps=["poly.cc"])
+    exs = core.build_harness("faultsolv", ["faultsolv.cc"], lib)
+
+    def poly(pl, cap):
+        return lambda: tracelib.gen_histories(run, SPEC, "PolyHist", polylib.hist_cfg(pl["maxlen"], pl["maxdim"], pl["ill"], pl["coef"], FAULT_OPS, True), pl["num"], 26)[:cap]
+
+    def mip(maxlen, maxdim, num, cap):
+        return lambda: tracelib.gen_histories(run, c06.SPEC, "MipHist", c06.cfg(maxlen, maxdim, 8), num, maxlen + 2)[:cap]
+
+    def pip(n, first):
+        return lambda: [{"seed": first + i, "wide": 1 if i % 4 == 3 else 0} for i in range(n)]
+
+    # (mode, domain, executable, history source, flattening, label)
+    plans = [(0, "poly", exe, poly(dict(maxlen=7, maxdim=2, ill=5, coef=2, num=(900 if q else 8000)), 300 if q else 3000), polylib.flat),
+             (0, "poly", exe, poly(dict(maxlen=6, maxdim=3, ill=5, coef=3, num=(400 if q else 4000)), 120 if q else 1500), polylib.flat),
+             (1, "poly", exe, poly(dict(maxlen=8, maxdim=3, ill=0, coef=3, num=(1500 if q else 12000)), 600 if q else 6000), polylib.flat),
+             (2, "poly", exe8, poly(dict(maxlen=8, maxdim=3, ill=0, coef=3, num=(5000 if q else 40000)), 3000 if q else 30000), polylib.flat),
+             (3, "poly", exe, poly(dict(maxlen=7, maxdim=3, ill=5, coef=3, num=(500 if q else 5000)), 150 if q else 1500), polylib.flat),
+             (0, "mip", exs, mip(9, 3, 600 if q else 6000, 150 if q else 2000), c06.flat),
+             (3, "mip", exs, mip(9, 3, 300 if q else 3000, 60 if q else 600), c06.flat),
+             (1, "mip", exs, mip(9, 3, 900 if q else 8000, 300 if q else 4000), c06.flat),
+             (0, "pip", exs, pip(60 if q else 600, 1 + run.seed * 1000), _pip_flat),
+             (1, "pip", exs, pip(200 if q else 2000, 1 + run.seed * 1000), _pip_flat)]
     pos = collections.Counter()
     thrown = collections.Counter()
-    for mode, ex, pl, cap in plans:
+    for mode, dom, ex, source, flat in plans:
         t0 = time.time()
-        progs = tracelib.gen_histories(run, SPEC, "PolyHist", polylib.hist_cfg(pl["maxlen"], pl["maxdim"], pl["ill"], pl["coef"], FAULT_OPS, True),
-                                       pl["num"], 26)[:cap]
+        progs = source()
         t1 = time.time()
-        executed = tracelib.execute(run, ex, progs, polylib.flat, args=["120", str(mode)])
+        executed = tracelib.execute(run, ex, progs, flat, args=["120" if dom == "poly" else "40", str(mode)])
         t2 = time.time()
         rej, und, nev, failed = tracelib.validate(run, SPEC, "FaultTrace", os.path.join(SPEC, "FaultTrace.cfg"), executed)
         nf = 0
+        label = "%s-%s" % (MODES[mode], dom)
         for prog, evs in executed:
             for line in evs:
                 if line.startswith('{"e":"Fault"'):
                     nf += 1
                     e = json.loads(line)
-                    thrown[(MODES[mode], e["thrown"])] += 1
-                    run.note_case(("fault", MODES[mode], e["op"], e["thrown"]))
-        pos[MODES[mode]] += nf
-        core.log("fault plan %s dim<=%d len=%d: %d histories, %d fault positions (gen %.1fs, exec %.1fs, validate %.1fs), rejected %d, tlc-failed %d" % (
-            MODES[mode], pl["maxdim"], pl["maxlen"], len(progs), nf, t1 - t0, t2 - t1, time.time() - t2, len(rej), len(failed)))
+                    thrown[(label, e["thrown"])] += 1
+                    run.note_case(("fault", label, e["op"], e["thrown"]))
+        pos[label] += nf
+        core.log("fault plan %s: %d histories, %d fault positions (gen %.1fs, exec %.1fs, validate %.1fs), rejected %d, undecided %d, tlc-failed %d" % (
+            label, len(progs), nf, t1 - t0, t2 - t1, time.time() - t2, len(rej), und, len(failed)))
         run.cov["traces_validated_against_impl"] += len(executed) - len(failed)
+        run.cov["undecided"] = run.cov.get("undecided", 0) + und
         for gi, msg in failed:
             core.log("  validator could not process a fault history: %s" % msg.replace("\n", " ")[-300:])
         for r in rej:
@@ -60,7 +84,7 @@ def run_faults(run):
             op = r["op"]
             if op in ("Crash", "Hang"):
                 op = "?"
-            sig = {"domain": "fault-" + MODES[mode], "op": op, "why": r["why"]}
+            sig = {"domain": "fault-" + label, "op": op, "why": r["why"]}
             run.violation(sig, {"program": r["prog"], "event_index": r["index"], "event": ev, "why": r["why"], "mode": MODES[mode]})
     run.cov["fault_positions"] = dict(pos)
     run.cov["fault_outcomes"] = {"%s:%s" % k: v for k, v in sorted(thrown.items())}
